@@ -66,7 +66,8 @@ def string_type(v):
                 base = "dotted_name"
         elif pk == {"ImportFrom"} and fld == "module":
             base = "dotted_name"
-        if v.derived and v.derived.startswith("split('.')[0]") and base == "dotted_name":
+        if v.derived and re.match(r"split\('\.'\)\[(\d+|-\d+|\*)\]$", v.derived) and base == "dotted_name":
+            # any component of a dotted name is an identifier
             return "identifier"
         if v.derived and base != "identifier":
             return "unknown"
@@ -421,4 +422,12 @@ def _unparser_syntax(ctx):
     return [c03.rule_r4(ctx), c03.rule_r4b(ctx), c03.rule_r5(ctx), c03.lambda_skeleton_rule(ctx), c04.rule_r3(ctx)]
 
 
-RULES = [("C06-R8", _c06r8), ("C03-syntax", _unparser_syntax), ("C02-R1", rule_r1), ("C02-R2", rule_r2), ("C02-R3", rule_r3), ("C02-R4", rule_r4), ("C02-R5", rule_r5)]
+def _host_printer(ctx):
+    """The text printed by the host's ast.unparse is only as well formed as that printer makes it for
+    the node kinds that reach it: shared rule C15-R9 (format-spec text written raw on 3.12+ hosts)."""
+    from .c15 import rule_r9
+
+    return rule_r9(ctx)
+
+
+RULES = [("C15-R9", _host_printer), ("C06-R8", _c06r8), ("C03-syntax", _unparser_syntax), ("C02-R1", rule_r1), ("C02-R2", rule_r2), ("C02-R3", rule_r3), ("C02-R4", rule_r4), ("C02-R5", rule_r5)]
